@@ -452,6 +452,24 @@ func genFor(prop, part string, seed uint64) *Scenario {
 	if prop == "C13" {
 		c13Boost(sc, common.NewRng(seed^0x13))
 	}
+	if prop == "C03" && sc.End != "natural" && len(sc.Bars) > 0 {
+		// busy bars at the moment of cancellation: workers that keep a bar's
+		// goroutine occupied (increments of 0 change nothing) and are not joined
+		// before the cancel; a bar that serves the final render before it notices
+		// the cancellation would be drawn as running
+		r := common.NewRng(seed ^ 0x03)
+		for w := 0; w < r.Range(1, 4); w++ {
+			bi := r.Intn(len(sc.Bars))
+			if sc.Bars[bi].AddBy != -1 {
+				continue
+			}
+			sc.Waiters = append(sc.Waiters, []Op{{K: "busy", B: bi}})
+			// a slow ticker, so that the frame rendered on cancellation is the last one
+			if r.Bool() {
+				sc.RefreshUS = r.Pick(10000, 30000)
+			}
+		}
+	}
 	if prop == "C14" && len(sc.Bars) > 0 {
 		// observers parked in Bar.Wait when the cancellation lands
 		r := common.NewRng(seed ^ 0x14)
@@ -611,6 +629,9 @@ func runSched(job common.Job, em *emitter) {
 		rr, restart := runScenario(sc, watchdog)
 		a := analyse(rr)
 		v := oracleFor(job.Prop, a)
+		if os.Getenv("VERIF_DEBUG") != "" {
+			fmt.Fprintf(os.Stderr, "DEBUG verdict=%s msg=%s\npostWait=%+v\nnotif=%v leak=%q stuck=%s\n%s\n", v.Status, v.Msg, rr.postWait, rr.notif, rr.leak, rr.stuckKind, a.tail())
+		}
 		res := common.Result{Idx: idx, Prop: job.Prop, Status: v.Status, Evals: 1, Msg: v.Msg, Key: v.Key, Obs: map[string]int64{}}
 		if v.NonTrivial {
 			res.NonTrivial = 1
